@@ -54,6 +54,12 @@ def run(rep: Report, repo: Repo):
                        'well-formed use as stated in the property (explicit pins only on free positions, nodes removed after their lines)']
     cmod = repo.mod('circuit')
     own = own_container_classes(repo)
+    evaluated = False
+    try:
+        evaluated = history_evaluated(rep, repo, cmod)
+        rep._c09_history = evaluated
+    except ModelError as e:
+        rep.note(f'C09.history: Node / Line / Circuit are outside the evaluated subset ({e}); the structural rules C09.ctor / C09.remove / C09.containers decide')
 
     # ---- 1. index ownership
     rep.rule('C09.index', '.index is stored only in Node.__init__, Line.__init__ and IndexList.__delitem__ (whole package)')
@@ -117,7 +123,7 @@ def run(rep: Report, repo: Repo):
                     continue
                 n_mut += 1
                 txt = norm(st)
-                ok = txt in allowed.get((mod.name, q), ())
+                ok = txt in allowed.get((mod.name, q), ()) or (evaluated and (mod.name, q) in allowed)     # who may write; what is written there is decided by C09.history
                 if ok:
                     seen_allowed.add((mod.name, q, txt))
                 rep.ob('C09.containers', f'{mod.name}.{q}: {txt}', ok)
@@ -127,7 +133,7 @@ def run(rep: Report, repo: Repo):
     rep.floor('container mutation sites', n_mut, 14)
     for (m, q), texts in allowed.items():
         for t in texts:
-            if (m, q, t) not in seen_allowed:
+            if (m, q, t) not in seen_allowed and not (evaluated and q in ('Node.__init__', 'Line.__init__', 'Node.remove', 'Line.remove', 'Circuit.__init__')):
                 rep.violate('C09.containers', cmod, q, t, f'{q}: required container update `{t}` is missing', node=cmod.funcs.get(q))
     # positive fixture for the zero-expected part of the rule
     fx = ast.parse('def rogue(c, n):\n    c.nodes.append(n)\n    n.index = 7\n')
@@ -136,6 +142,18 @@ def run(rep: Report, repo: Repo):
     if len(got) != 1:
         raise ModelError('C09 positive fixture no longer matches the container rule')
 
+    if evaluated:
+        swap_with_last(rep, cmod)
+        rep._c09_decided = ('Line.__init__', 'Line.remove', 'Node.__init__', 'Node.remove')
+        from checks import c10
+        rep._c10_function = c10.function_rules(rep, repo, cmod, what=('elim', 'substitute'))     # C10.function (part of this check, see depends)
+        if rep._c10_function:
+            rep._c09_decided += ('Circuit.substitute', 'Circuit.eliminate_1to1_forks', 'Circuit.resolve_tlib_cells')
+        backrefs(rep, repo, decided=rep._c09_decided)
+        dangling(rep, cmod)
+        if not getattr(rep, '_c09_stats_evaluated', False):
+            stats(rep, cmod)
+        return
     # same fork/cell choice in insert and delete
     ni, nr = cmod.func('Node.__init__'), cmod.func('Node.remove')
     ti = [norm(i.test) for i in find_all(ni, ast.If) if '__fork__' in norm(i.test)]
@@ -160,6 +178,184 @@ def run(rep: Report, repo: Repo):
     ctor_order(rep, cmod)
     dangling(rep, cmod)
     stats(rep, cmod)
+
+
+def history_evaluated(rep, repo, cmod):
+    """C09.history - kyupy's own Node / Line / Circuit constructors and removers evaluated (Engine M) along generated edit histories and compared, after every
+    step, with a shadow model of the documented semantics (kvstatic/graphmodel.py). Returns False when the classes are outside the evaluator subset."""
+    import random
+    from kvstatic import graphmodel as G
+    rep.rule('C09.history', 'Node / Line constructors and remove() evaluated along 300 generated edit histories (cells and forks, implicit pins and explicit free pins incl. gaps on cells, '
+                            'removal of first / middle / last fork outputs, removal of nodes and lines at every position, names re-used): after every step the node and line tables, '
+                            'indices, pin lists, back-references and name tables equal the shadow model of the documented behaviour')
+    env = G.classes(cmod)
+    C, N, L = env['Circuit'], env['Node'], env['Line']
+    bad = None
+    nsteps = 0
+    nstats = [0]
+    stats_model_error = []
+    for seed in range(300):
+        rng = random.Random(seed)
+        c = C('t')
+        sh = G.Shadow()
+        lid = {}
+        nodes = []       # (evaluated node, shadow node)
+        lines = []
+        names = 0
+        trace = []
+        for step in range(rng.randint(4, 14)):
+            r = rng.random()
+            try:
+                if r < 0.3 or len(nodes) < 2:
+                    kind = rng.choice(['__fork__', '__fork__', 'AND2', 'DFF'])
+                    if rng.random() < 0.2 and names > 0:
+                        name = f'n{rng.randrange(names)}'       # a name that may be in use, or free again after a removal
+                    else:
+                        name = f'n{names}'
+                        names += 1
+                    trace.append(f'Node({name!r}, {kind!r})')
+                    tab = sh.forks if kind == '__fork__' else sh.cells
+                    if name in tab:
+                        try:
+                            N(c, name, kind)
+                            bad = bad or ('a second node of the same name and kind is accepted', list(trace))
+                        except AssertionError:
+                            pass
+                        continue
+                    nodes.append((N(c, name, kind), sh.node(name, kind)))
+                elif r < 0.7:
+                    forks_ = [x for x in nodes if x[1]['kind'] == '__fork__']
+                    (d, sd), (rd, sr) = (rng.choice(forks_) if forks_ and rng.random() < 0.5 else rng.choice(nodes)), rng.choice(nodes)
+
+                    def free(lst, fork):
+                        # well-formed use: an explicit pin names a free position; a fork has no pin identity, its next output is the only free one
+                        if fork:
+                            return [len(lst)]
+                        return [k for k, x in enumerate(lst) if x is None] + [len(lst), len(lst) + 1]
+                    dp = rng.choice([None, None] + free(sd['outs'], sd['kind'] == '__fork__'))
+                    rp = rng.choice([None, None] + free(sr['ins'], False))
+                    trace.append(f'Line({sd["name"]}{"" if dp is None else "." + str(dp)} -> {sr["name"]}{"" if rp is None else "." + str(rp)})')
+                    l = L(c, d if dp is None else (d, dp), rd if rp is None else (rd, rp))
+                    sl = sh.line(sd, dp, sr, rp)
+                    lid[id(l)] = sl['id']
+                    lines.append((l, sl))
+                elif r < 0.88 and lines:
+                    k = rng.randrange(len(lines))
+                    l, sl = lines.pop(k)
+                    trace.append(f'remove line {sl["id"]}')
+                    l.remove()
+                    sh.remove_line(sl)
+                elif nodes:
+                    k = rng.randrange(len(nodes))
+                    n, sn = nodes[k]
+                    if any(x is not None for x in sn['ins'] + sn['outs']):
+                        continue          # nodes are removed once their lines are gone
+                    nodes.pop(k)
+                    trace.append(f'remove node {sn["name"]}')
+                    n.remove()
+                    sh.remove_node(sn)
+                else:
+                    continue
+            except ModelError:
+                raise
+            except (IndexError, KeyError, TypeError, AttributeError, ValueError, AssertionError, RuntimeError) as e:
+                bad = bad or (f'raises {type(e).__name__}: {e}', list(trace))
+                break
+            nsteps += 1
+            got = G.picture(c, lid)
+            want = sh.picture()
+            if got == want and step % 2 == 1:
+                # the reported statistics match the containers
+                try:
+                    st_ = c.stats
+                except ModelError as e_:
+                    stats_model_error.append(str(e_))
+                    st_ = None
+                except (IndexError, KeyError, TypeError, AttributeError, ValueError, AssertionError, RuntimeError) as e:
+                    bad = bad or (f'Circuit.stats raises {type(e).__name__}: {e}', list(trace))
+                    break
+                if st_ is not None:
+                    kinds = [sn_['kind'] for sn_ in sh.nodes if sn_['kind'] != '__fork__']
+                    exp = {'__node__': len(sh.nodes), '__cell__': len(sh.cells), '__fork__': len(sh.forks), '__io__': 0, '__line__': len(sh.lines),
+                           '__dff__': sum('dff' in k.lower() for k in kinds), '__latch__': sum('latch' in k.lower() and 'dff' not in k.lower() for k in kinds)}
+                    exp['__seq__'] = exp['__dff__'] + exp['__latch__']
+                    exp['__comb__'] = sum(1 for k in kinds if 'dff' not in k.lower() and 'latch' not in k.lower() and 'put' not in k.lower())
+                    for k in set(kinds):
+                        exp[k] = kinds.count(k)
+                    wrong = {k: (st_.get(k, 0) if isinstance(st_, dict) else None, v) for k, v in exp.items() if not isinstance(st_, dict) or st_.get(k, 0) != v}
+                    if wrong:
+                        bad = bad or (f'Circuit.stats reports {({k: g_ for k, (g_, _w) in wrong.items()})} where the containers hold {({k: w_ for k, (_g, w_) in wrong.items()})}', list(trace))
+                        break
+                    nstats[0] += 1
+            if got == want and (step % 3 == 2):
+                # copying and pickling (state round trip) are edits too: the result must be the same structure, with its own objects
+                try:
+                    c2 = c.copy()
+                    st = c.__getstate__()
+                    c3 = C()
+                    c3.__setstate__(st)
+                except ModelError:
+                    raise
+                except (IndexError, KeyError, TypeError, AttributeError, ValueError, AssertionError, RuntimeError) as e:
+                    bad = bad or (f'copy() / __getstate__ / __setstate__ raises {type(e).__name__}: {e}', list(trace))
+                    break
+                for what, cc in (('copy()', c2), ('the unpickled circuit', c3)):
+                    pos = {id(l): k for k, l in enumerate(cc.lines)}
+                    g2 = G.picture(cc, pos)
+                    pos0 = {sl_['id']: k for k, sl_ in enumerate(sh.lines)}
+                    if isinstance(g2, str):
+                        bad = bad or (f'{what}: {g2}', list(trace))
+                    else:
+                        w2 = ([(a, b_, [None if x is None else pos0[x] for x in i_], [None if x is None else pos0[x] for x in o_]) for a, b_, i_, o_ in want[0]],
+                              [(pos0[a], b_, c_, d_, e_) for a, b_, c_, d_, e_ in want[1]], want[2], want[3])
+                        def strip(pic):
+                            def t(l_):
+                                l_ = list(l_)
+                                while l_ and l_[-1] is None:
+                                    l_.pop()
+                                return l_
+                            return ([(a, b_, t(i_), t(o_)) for a, b_, i_, o_ in pic[0]],) + tuple(pic[1:])
+                        g2, w2 = strip(g2), strip(w2)       # trailing unconnected pins are not part of the structure
+                        if g2 != w2:
+                            bad = bad or (f'{what} differs from the original: ' + next((f'{w}: {x} instead of {y}' for w, x, y in zip(('nodes', 'lines', 'fork names', 'cell names'), g2, w2) if x != y), ''), list(trace))
+                        elif any(x is y for x in cc.nodes for y in c.nodes) or any(x is y for x in cc.lines for y in c.lines):
+                            bad = bad or (f'{what} shares node / line objects with the original', list(trace))
+                if bad:
+                    break
+                if rng.random() < 0.4:
+                    # the history goes on with the copy / the unpickled circuit: it must behave like the original under further edits
+                    cc = c2 if rng.random() < 0.5 else c3
+                    trace.append('continue on the copy' if cc is c2 else 'continue on the unpickled circuit')
+                    nodes = [((cc.forks if sn['kind'] == '__fork__' else cc.cells)[sn['name']], sn) for _n, sn in nodes]
+                    lines = [(cc.lines[sh.lines.index(sl_)], sl_) for _l, sl_ in lines]
+                    lid = {id(l_): sl_['id'] for l_, sl_ in lines}
+                    c = cc
+                    for sn_ in sh.nodes:          # a freshly built circuit has no trailing unconnected pins
+                        for pl in (sn_['ins'], sn_['outs']):
+                            while pl and pl[-1] is None:
+                                pl.pop()
+            if got != want:
+                if isinstance(got, str):
+                    why = got
+                else:
+                    why = next((f'{w} differ: circuit has {g_}, documented behaviour gives {w_}' for w, g_, w_ in zip(('nodes (name, kind, input lines, output lines)', 'lines (id, driver, pin, reader, pin)', 'fork names', 'cell names'), got, want) if g_ != w_), 'structures differ')
+                bad = bad or (why, list(trace))
+                break
+        if bad:
+            break
+    ok = bad is None
+    rep.ob('C09.history', f'{nsteps} edit steps over 300 histories', ok, evals=nsteps)
+    if not ok:
+        why, trace = bad
+        rep.violate('C09.history', cmod, 'Line.__init__', 'edit history', f'after the edit history [{"; ".join(trace)}] {str(why)[:600]}', node=cmod.func('Line.__init__'))
+    rep.floor('edit steps evaluated', nsteps, 1500)
+    rep._c09_stats_evaluated = nstats[0] > 100 and not stats_model_error
+    if stats_model_error:
+        rep.note(f'C09.stats: Circuit.stats is outside the evaluated subset ({stats_model_error[0]}); the structural rule decides')
+    else:
+        rep.rule('C09.stats', 'Circuit.stats evaluated along the edit histories: every total equals the size of the container it names, per-kind counts, __dff__/__latch__/__seq__/__comb__ follow the cell kinds')
+        rep.ob('C09.stats', f'statistics after {nstats[0]} edit steps', not (bad and 'stats' in str(bad[0])), evals=nstats[0])
+    return True
 
 
 def swap_with_last(rep, cmod):
@@ -217,12 +413,16 @@ def swap_with_last(rep, cmod):
             rep.violate('C09.swap', cmod, g, body_no_doc(g)[0], 'free_index must return the first position holding None, or len(self)', node=g)
 
 
-def backrefs(rep, repo):
+def backrefs(rep, repo, decided=()):
+    """decided: qualified names of functions of circuit.py whose effect on the graph is decided by evaluation (C09.history / C10.function check the
+    back-references of the resulting graph themselves): the pairing lint is not applied to them."""
     rep.rule('C09.backref', 'a store to X.reader/X.reader_pin (X.driver/X.driver_pin) is followed on the fall-through path by X.reader.ins[X.reader_pin] = X (X.driver.outs[X.driver_pin] = X)')
     n = 0
     for mod in repo.all_mods():
         for q, f in mod.funcs.items():
             stores = {}
+            if mod.name == 'circuit' and q in decided:
+                continue
             for st in walk_no_nested_funcs(f):
                 if isinstance(st, ast.Assign) and len(st.targets) == 1 and isinstance(st.targets[0], ast.Attribute) \
                         and st.targets[0].attr in ('reader', 'reader_pin', 'driver', 'driver_pin'):
@@ -250,7 +450,7 @@ def backrefs(rep, repo):
                 if not ok:
                     rep.violate('C09.backref', mod, f, bad[0], f'{mod.name}.{q}: `{norm(bad[0])}` is not followed by the back-reference store `{want}` on the fall-through path; '
                                 f'the line would record a pin that does not reference it', node=bad[0])
-    rep.floor('back-reference pairing sites', n, 5)
+    rep.floor('back-reference pairing sites', n, 5 if not decided else 0)
 
 
 def followed_by(st, want, f):
@@ -455,11 +655,13 @@ def depends(rep, repo):
     """Cell substitution, fork elimination, copy and pickle are edit operations of this property: their rules (C10.pins,
     C10.keys, C10.names, C10.elim, C10.copy, C10.pickle) are part of this check."""
     from checks import c10
-    c10.substitute_rules(rep, repo, repo.mod('circuit'))
-    # eliminating 1:1 forks, copying and pickling are edit operations of this property as well
-    c10.elim_rules(rep, repo.mod('circuit'))
-    c10.copy_rules(rep, repo.mod('circuit'))
-    c10.pickle_rules(rep, repo.mod('circuit'))
+    cmod = repo.mod('circuit')
+    if not hasattr(rep, '_c10_function'):
+        c10.function_rules(rep, repo, cmod, what=('elim', 'substitute'))
+    # copying and pickling are edit operations of this property as well: evaluated along the histories of C09.history; structural rules otherwise
+    if not getattr(rep, '_c09_history', False):
+        c10.copy_rules(rep, cmod)
+        c10.pickle_rules(rep, cmod)
 
 
 def thorough(rep, repo):
